@@ -647,11 +647,16 @@ class CondSq(Unit):
     solver_opts = {"rounds": 4, "const_sum": True}
 
     def cases(self):
-        return [f"d={d}/{k}" for d in (2, 3) for k in SQ_KINDS]
+        # qvector is an integer array (what utils.wavevector produces) in the main cases; two cases pass the same integer vectors as a
+        # float64 array (e.g. reloaded with np.loadtxt): conversions that do not copy then alias the caller's array
+        return [f"d={d}/{k}" for d in (2, 3) for k in SQ_KINDS] + ["d=2/ones/qvector-float64", "d=3/float/qvector-float64"]
 
     def _parse(self, case):
         parts = case.split("/")
         return int(parts[0][2:]), parts[1]
+
+    def _qfloat(self, case):
+        return case.endswith("/qvector-float64")
 
     def setup(self, ctx, case):
         d, kind = self._parse(case)
@@ -662,7 +667,12 @@ class CondSq(Unit):
         for c in range(d):
             ctx.assume(sv.cmp(">", tr.bl(0, c), 0))
         snap = tr.snapshot(0)
-        qv = ctx.array("QV", (nq, d), "int")
+        if self._qfloat(case):          # float64 array holding integer values n_m
+            qi = ctx.array("QV", (nq, d), "int")
+            qv = ctx.array_of((nq, d), lambda idx: sv.to_real(qi.get(idx)), "float", name="QVf")
+        else:
+            qv = ctx.array("QV", (nq, d), "int")
+        ctx.state.origin[qv.sid] = "argument qvector"
         sp = 1 if kind == "species1" else None
         cond, el = _cond_array(ctx, kind, N, d, tr=tr, species=sp)
         if kind in SQ_BOOL:
@@ -670,7 +680,8 @@ class CondSq(Unit):
             ctx.assume(sv.cmp(">=", NA, 1))         # at least one selected particle
         else:
             NA = N
-        inp = dict(tr=tr, N=N, d=d, nq=nq, kind=kind, el=el, qv=qv, m=ctx.int("m"), g=ctx.int("g"), NA=NA)
+        ctx.state.origin.setdefault(cond.sid, "argument condition")
+        inp = dict(tr=tr, N=N, d=d, nq=nq, kind=kind, el=el, qv=qv, m=ctx.int("m"), g=ctx.int("g"), NA=NA, watch=[qv.sid, cond.sid])
         return [snap, qv, cond], {}, inp
 
     def _fft_cols(self, kind, d):
@@ -678,7 +689,7 @@ class CondSq(Unit):
 
     def clause_names(self, case):
         d, kind = self._parse(case)
-        names = ["columns", "rows=one-per-wave-vector", "q-components=2pi*n/L", "q=|q-vector|", "rounded-to-8-decimals"]
+        names = ["frame:qvector-and-condition-not-written", "columns", "rows=one-per-wave-vector", "q-components=2pi*n/L", "q=|q-vector|", "rounded-to-8-decimals"]
         for f in self._fft_cols(kind, d):
             names += [f"{f}:sum=sum_i-A_i-exp(-iq.r_i)", f"{f}:normalisation=1/sqrt(N_A)"]
         names += ["Sq=|FFT|^2", "Sq=|sum|^2/N_A", "average:columns", "average:mean-of-Sq-over-equal-rounded-|q|"]
@@ -695,6 +706,12 @@ class CondSq(Unit):
         from pyvc.pandas_model import df_content
         d, kind, m, g, N, nq, NA = inp["d"], inp["kind"], inp["m"], inp["g"], inp["N"], inp["nq"], inp["NA"]
         res = out.value
+        # purity of the call (a second call with the same arrays must see the same inputs): no store event reaches the caller's arrays
+        written = [e for e in out.state.events if e[0] == "store" and e[1] in inp["watch"]]
+        if not written:
+            yield "frame:qvector-and-condition-not-written", True
+        for e in written:
+            yield "frame:qvector-and-condition-not-written", (z3.Not(z3.And(*e[3])) if e[3] else False)
         fcols = self._fft_cols(kind, d)
         want_order = [f"q{c}" for c in range(d)] + ["q", "Sq"] + fcols
         ok = isinstance(res, tuple) and len(res) == 2 and all(isinstance(r, Ref) and r.kind == "df" for r in res) \
@@ -869,9 +886,20 @@ def _replay_csq(d, kind, clause, model, seed):
             import warnings
             with warnings.catch_warnings():
                 warnings.simplefilter("ignore")
-                res, ave = Sm.conditional_sq(snap, qv.copy(), cond.copy())
+                # the integer wave vectors as the caller's own array, every third trial as float64 (e.g. reloaded with np.loadtxt); the
+                # call must leave the caller's arrays bit-for-bit unchanged (a second call with the same arrays sees the same inputs)
+                qv_arg = qv.astype(np.float64) if tried % 3 == 2 else qv.copy()
+                cond_arg = cond.copy()
+                qv_before, cond_before = qv_arg.tobytes(), cond_arg.tobytes()
+                inputs["qvector_dtype"] = str(qv_arg.dtype)
+                res, ave = Sm.conditional_sq(snap, qv_arg, cond_arg)
         except Exception as e:
             return {"ran": True, "failed": True, "detail": f"raises {type(e).__name__}: {e}", "inputs": inputs, "searched": tried}
+        if qv_arg.tobytes() != qv_before or cond_arg.tobytes() != cond_before:
+            which = "qvector" if qv_arg.tobytes() != qv_before else "condition"
+            return {"ran": True, "failed": True, "searched": tried, "inputs": inputs,
+                    "detail": f"conditional_sq modified the caller's {which} array in place (dtype {qv_arg.dtype if which == 'qvector' else cond_arg.dtype}): "
+                              f"first rows now {(qv_arg if which == 'qvector' else cond_arg)[:2].tolist()}, were {qv[:2].tolist() if which == 'qvector' else cond[:2].tolist()}"}
         tried += 1
         q = 2 * np.pi * qv / L[np.newaxis, :]
         Aarr = cond.astype(float) if cond.dtype == bool else cond
